@@ -64,6 +64,14 @@ TrAddMany ==
         /\ Stamped(b, nextId) = Line.evs
         /\ AddMany(b)
 
+TrAddManyFail ==
+    /\ Line.op = "add_many_fail"
+    /\ LET b == [i \in 1..Len(Line.evs) |-> Arg(Line.evs[i])] IN
+        \* Line.evs: the k events the source produced before failing (+ one placeholder for the failing position);
+        \* Line.kept: those of them the queue holds afterwards
+        /\ Stamped(SubSeq(b, 1, Line.k), nextId) = SubSeq(Line.evs, 1, Line.k)
+        /\ AddManyKept(b, Line.k, SeqRange(Line.kept))
+
 TrGetEvent ==
     /\ Line.op = "get_event"
     /\ Line.ev \in pending
@@ -98,7 +106,7 @@ TrRoundTrip ==
 TrNext ==
     /\ l < Len(Lines)
     /\ Line.exc = 0
-    /\ \/ TrAdd \/ TrAddMany \/ TrGetEvent \/ TrGetCurrent
+    /\ \/ TrAdd \/ TrAddMany \/ TrAddManyFail \/ TrGetEvent \/ TrGetCurrent
        \/ TrLen \/ TrEmpty \/ TrLastTs \/ TrRoundTrip
     /\ l' = l + 1
     /\ tid' = tid
